@@ -442,14 +442,20 @@ class UnitLib(Lib):
                 if k == 0:
                     return res.with_(idx=li)
                 return res.with_(idx=Idx(li.axis, None, li.frame, li.crossed))
-            # + sub-pixel offset / unknown quantity: position along the axis
-            if r.num in ("float", "ifloat", None) and r.idx is None:
+            # + an unknown quantity: it may be the cut-out offset or a +1,
+            # so frame and origin become unknown (the axis stays)
+            if r.num is None and r.cval is None and r.idx is None:
+                if li.frame == "image":
+                    # an image-frame offset plus an unknown (relative) index
+                    return res.with_(idx=Idx(li.axis, li.origin, "image",
+                                             li.crossed))
+                return res.with_(idx=Idx(li.axis, None, None, li.crossed))
+            # + a (sub-pixel) float offset: still a position along the axis
+            if r.num in ("float", "ifloat") and r.idx is None:
                 if r.cval is None or (isinstance(r.cval, float) and
                                       abs(r.cval) < 1):
-                    return res.with_(idx=li if r.cval is not None or
-                                     r.num is None else
-                                     Idx(li.axis, li.origin, li.frame,
-                                         li.crossed))
+                    return res.with_(idx=Idx(li.axis, li.origin, li.frame,
+                                             li.crossed))
                 return res.with_(idx=Idx(li.axis, None, li.frame, li.crossed))
             return res.with_(idx=Idx(li.axis, None, li.frame, li.crossed))
         if isinstance(ri, Idx) and not isinstance(li, Idx):
@@ -626,6 +632,8 @@ class UnitLib(Lib):
         return super().subscript(it, n, base, ivs, env)
 
     def iter_elem(self, it, v, node):
+        if v.cls == "find_objects":
+            return AV(num="obj", cls="slicetuple")
         if v.cls == "colarray" and v.elts is not None:
             return AV(num="obj", elts=v.elts, src=v.src)
         if isinstance(v.idx, Idx) or v.unit is not None or \
